@@ -27,8 +27,8 @@ class AccountIbProtocolEntity(IbProtocolEntity):
                                         {
                                             "status": self.status,
                                             "kind": self.kind,
-                                            "creation": int(self.creation),
-                                            "expiration": int(self.expiration)
+                                            "creation": str(self.creation),
+                                            "expiration": str(self.expiration)
 
                                         })
         node.addChild(accountChild)
@@ -54,3 +54,4 @@ class AccountIbProtocolEntity(IbProtocolEntity):
             accountNode["creation"],
             accountNode["expiration"]
         )
+        return entity
